@@ -9,7 +9,7 @@ RULE = ("bounded-exhaustive: ALL ordered pairs of the point alphabet (identity, 
         "the subgroup incl. the order-3 point (0,+-2), their negatives and doubles) x ALL pairs of Jacobian representatives (z in {1,2,-1,filler}; "
         "identity as (0,1,0),(1,1,0),(Gx,Gy,0)) x {add, add_mixed, double, negate, equal, from_affine, from_projective, affine negate/equal} "
         "through the C API and the C++ members on 3 back ends; results normalised by the definition (x/z^2, y/z^3) in Python and compared with the "
-        "affine chord-and-tangent law; plus crafted G1 points for which an intermediate of the doubling / mixed-addition formulas (X^2, Y^4, (x2-X1)^2 as stored residues) sits at k q / f, f in {2,3,4,8}. distinct by construction; non-trivial = neither operand the identity")
+        "affine chord-and-tangent law; plus crafted G1 points for which an intermediate of the doubling / mixed-addition formulas (X^2, Y^4, (x2-X1)^2 as stored residues) sits at k q / f, f in {2,3,4,8}, and Jacobian representatives chosen so that the X coordinate the formulas output has a stored residue next to q, 0 or k q / 4. distinct by construction; non-trivial = neither operand the identity")
 ASSUMPTIONS = ["vlib/ref.py affine chord-and-tangent law is the ground truth", "results are compared as group elements (any Jacobian representative of the right point is accepted)"]
 CONFIGS = ["asm", "c64", "c32", "o0"]
 NAME = {1: "g1", 2: "g2"}
@@ -234,6 +234,14 @@ def run_shard(ctx, shard):
         for lab, P1, P2 in FB["mixed"]:
             for o in ("add_mixed", "add_mixed_c", "add"):
                 emit({"cfg": cfg, "g": g, "op": o, "p": enc_pt(P1, g), "zp": None, "q": enc_pt(P2, g), "zq": None}, True, "g1:formula-boundary:" + o)
+        # representatives chosen by the OUTPUT: the X coordinate the formulas produce has a stored residue at a boundary (alpha.output_boundary_cases_g1)
+        OB = alpha.output_boundary_cases_g1()
+        for lab, P, z, Q in OB["add"]:
+            for o in ("add", "add_c", "add_mixed", "add_mixed_c"):
+                emit({"cfg": cfg, "g": g, "op": o, "p": enc_pt(P, g), "zp": enc_z(z, g), "q": enc_pt(Q, g), "zq": None}, True, "g1:output-boundary:" + o)
+        for lab, P, z in OB["double"]:
+            emit({"cfg": cfg, "g": g, "op": "unary", "p": enc_pt(P, g), "zp": enc_z(z, g)}, True, "g1:output-boundary:double")
+            emit({"cfg": cfg, "g": g, "op": "add", "p": enc_pt(P, g), "zp": enc_z(z, g), "q": enc_pt(P, g), "zq": enc_z(z, g)}, True, "g1:output-boundary:add")
     elif op == "unary":
         for la, P, zp in R:
             emit({"cfg": cfg, "g": g, "op": "unary", "p": enc_pt(P, g), "zp": enc_z(zp, g)}, P is not None, "g%d:unary" % g)
